@@ -18,6 +18,7 @@ import (
 	"math/big"
 	"os"
 	"strconv"
+	"strings"
 	"testing"
 
 	"github.com/welllog/golib/hashz"
@@ -412,6 +413,19 @@ func runDig(c digCase, r *pb.Rec) error {
 	if string(held) != heldCopy {
 		return fmt.Errorf("the slice returned by Sha256 changed after later calls")
 	}
+	if len(c.Data)%53 == 11 {
+		// results stay the caller's also after far more output has been produced than any shared block could hold
+		heldStr, heldHex, heldMac := hashz.Md5ToString(in), strz.HexEncodeToString(in), hashz.HmacToString(c.Key, in, sha1.New)
+		k1, k2, k3 := strings.Clone(heldStr), strings.Clone(heldHex), strings.Clone(heldMac)
+		for i := 0; i < 1200; i++ {
+			hashz.Sha512ToString(strconv.Itoa(i))
+			strz.HexEncode([]byte{byte(i), 1, 2, 3})
+		}
+		if string(held) != heldCopy || heldStr != k1 || heldHex != k2 || heldMac != k3 {
+			return fmt.Errorf("a digest / hex result handed out earlier changed after 2400 later calls (about 160 KB of further results): %q %q %q %q", held, heldStr, heldHex, heldMac)
+		}
+		r.Class("results re-read after 160 KB of later results")
+	}
 	ns, nb := nstr(s), nbytes(in)
 	namedForms := map[string][4]string{
 		"md5":        {string(hashz.Md5(ns)), string(hashz.Md5(nb)), hashz.Md5ToString(ns), hashz.Md5ToString(nb)},
@@ -576,7 +590,7 @@ func init() {
 	pb.Register("hex_base64", pb.Options{Base: 30000, Required: []string{"invalid byte in odd-length input", "odd length", "base64 corrupt"},
 		Rule: "hex/base64 encode and decode of valid and corrupted inputs (cut, bad char at any position, odd length with and without an invalid char); oracle encoding/hex, encoding/base64 incl. decoded prefix and error text, all four string/[]byte/ToString variants, input unchanged; non-trivial = error case or > 2 bytes"},
 		genEnc, runEnc)
-	pb.Register("digests", pb.Options{Base: 3000, Required: []string{"hmac key longer than block", "healthy stream after a broken one", "data larger than the copy buffer"},
+	pb.Register("digests", pb.Options{Base: 3000, Required: []string{"results re-read after 160 KB of later results", "hmac key longer than block", "healthy stream after a broken one", "data larger than the copy buffer"},
 		Rule: "data 0..300 bytes, HMAC keys 0..150 bytes, stream form through a reader with drawn chunk sizes (incl. 0-byte reads and data+EOF); oracle crypto/* digests in lower-case hex; non-trivial = data longer than one block"},
 		genDig, runDig)
 	pb.Register("ipv4", pb.Options{Base: 30000, Rule: "boundary octets, one or two non-zero octets, uniform uint32; oracle dotted-quad of the octets and IPv4ToLong(LongToIPv4(x)) == x; non-trivial = x > 255"},
